@@ -55,6 +55,10 @@ func hostVariants(s sim.Source, host string, other string) (string, string) {
 		}
 		return "", "empty"
 	case 12:
+		if s.Intn("manycolons", 2) == 1 {
+			// not a host:port form: several colons outside brackets leave the Host as it is (it matches nothing)
+			return host + sim.Pick(s, "colons", []string{":80:90", "::1", ".:1:2"}), "several-colons"
+		}
 		return other, "other-host"
 	default:
 		return sim.Pick(s, "literal", []string{"[::1]:80", "127.0.0.1", "", host + ":", ":8080", ".", ".:443"}), "literal"
